@@ -96,7 +96,7 @@ def worker_main(pid, tier, verif_seed, start, stride, count, out_path, deadline_
                 continue
             seed = derive_seed(verif_seed, pid, run)
             try:
-                sc = mod.gen(Src(seed), tier)
+                sc = mod.gen_indexed(run, Src(seed), tier) if hasattr(mod, "gen_indexed") else mod.gen(Src(seed), tier)
             except Exception as e:  # noqa: BLE001
                 rec = {"run": run, "seed": seed, "status": "harness_error", "msg": f"gen: {type(e).__name__}: {e}",
                        "tb": traceback.format_exc()[-1500:]}
